@@ -1117,11 +1117,26 @@ def element_of(t):
     t = strip_refs(t)
     while isinstance(t, tuple) and t and t[0] == "deref":
         t = strip_refs(t[1])
+    r = None
     if is_index_call(t) and const_int(call_args(t)[1]) is not None:
-        return coll(call_args(t)[0]), const_int(call_args(t)[1])
-    if isinstance(t, tuple) and t and t[0] == "index" and const_int(t[2]) is not None and const_int(t[2]) >= 0:
-        return coll(t[1]), const_int(t[2])
-    return None
+        r = call_args(t)[0], const_int(call_args(t)[1])
+    elif isinstance(t, tuple) and t and t[0] == "index" and const_int(t[2]) is not None and const_int(t[2]) >= 0:
+        r = t[1], const_int(t[2])
+    if r is None:
+        return None
+    base, i = r
+    # element i of the tail x[a..] (or of x[a..b]) is element a + i of x
+    for _ in range(4):
+        b0 = strip_refs(base)
+        while isinstance(b0, tuple) and b0 and b0[0] == "deref":
+            b0 = strip_refs(b0[1])
+        if is_index_call(b0) and len(call_args(b0)) == 2:
+            cr = canon_range(call_args(b0)[0], call_args(b0)[1])
+            if cr is not None and const_int(cr[0]) is not None and const_int(cr[0]) >= 0:
+                base, i = call_args(b0)[0], i + const_int(cr[0])
+                continue
+        break
+    return coll(base), i
 
 
 def canon_range(subject, rg):
